@@ -580,6 +580,19 @@ func (in *Interp) binop(op token.Token, xt types.Type, x, y Value, yt types.Type
 	case token.AND_NOT:
 		return ts.BAnd(a, ts.BNot(b))
 	case token.SHL, token.SHR:
+		if isMI(a) {
+			sop := OpShl
+			if op == token.SHR {
+				sop = OpAShr
+				if !signed {
+					unsup("logical shift of a mathematical integer")
+				}
+			}
+			return ts.bin(sop, a, b)
+		}
+		if isMI(b) {
+			unsup("shift by a mathematical-integer amount")
+		}
 		_, ysigned, _ := scalarSort(yt)
 		wy := b.sort.Width()
 		if ysigned {
@@ -641,6 +654,38 @@ func (in *Interp) convert(v Value, from, to types.Type, fnName string) Value {
 	tsrt, tsigned, tok := scalarSort(to)
 	if fok && tok {
 		a := v.(*Term)
+		if isMI(a) && fs.IsBV() {
+			// mathematical integer source
+			switch {
+			case tsrt == SF64:
+				if in.w.concretizeIntToFloat[fnName] {
+					k := in.p.Concretize(a, "int->float in "+fnName)
+					return ts.FFromInt(ts.BV(64, k), true)
+				}
+				return a
+			case tsrt.IsBV():
+				w := tsrt.Width()
+				if w == 64 && tsigned {
+					return a
+				}
+				var lo, hi *Term
+				if tsigned {
+					lo, hi = ts.BV(64, uint64(-(int64(1) << uint(w-1)))), ts.BV(64, uint64(int64(1)<<uint(w-1)-1))
+				} else if w == 64 {
+					lo, hi = ts.BV(64, 0), ts.BV(64, 1<<62)
+				} else {
+					lo, hi = ts.BV(64, 0), ts.BV(64, uint64(1)<<uint(w)-1)
+				}
+				in.p.Require(ts.And(ts.SLe(lo, a), ts.SLe(a, hi)), fmt.Sprintf("conversion of a mathematical integer to %v not provably in range at %s", to, in.where()))
+				return a
+			}
+		}
+		if a.sort == SDy && fs == SF64 && tsrt.IsBV() {
+			if a.scale == 0 {
+				return a
+			}
+			unsup("float->int conversion of a fractional dyadic value")
+		}
 		switch {
 		case fs.IsBV() && tsrt.IsBV():
 			if fsigned {
